@@ -84,6 +84,8 @@ type c05CopyCase struct {
 	lwt      bool // in-memory src: the last segment is returned together with EOF / the error
 	chunked  bool // call relayChunkedSpliceCopy (the fallback when no splice pipe can be had) directly
 	halfWv   bool // the first writev of the gather write is cut short (relayAdvanceSegments must resume)
+	capOn    bool // the destination fails after accepting wcap bytes (the failing write is partial)
+	wcap     int
 	// observed by relayGatherWriteTestHook
 	obsGather  bool
 	obsBodyLen int
@@ -115,7 +117,35 @@ func (c *c05CopyCase) op() string {
 		term += "+"
 	}
 	// the pending bit is what was OBSERVED (the gather path really read a body), not what was intended
-	return fmt.Sprintf("copy %s %s%s%s %s %s", st, c05B(c.srcTCP), c05B(c.dstTCP), c05B(c.obsBodyLen > 0), term, cs)
+	op := fmt.Sprintf("copy %s %s%s%s %s %s", st, c05B(c.srcTCP), c05B(c.dstTCP), c05B(c.obsBodyLen > 0), term, cs)
+	if c.capOn {
+		op += fmt.Sprintf(" cap=%d", c.wcap)
+	}
+	return op
+}
+
+// c05CapConn: a destination whose peer stops accepting data after `left` more bytes — the write that exceeds them
+// is partial and fails.  Opaque to the engine (cannot be unwrapped to a TCP socket).
+type c05CapConn struct {
+	net.Conn
+	left int
+}
+
+func (c *c05CapConn) Write(p []byte) (int, error) {
+	if len(p) > c.left {
+		// transient (one shot): correct code never writes again after a write error; code that swallows the error
+		// or retries shows a gap / a duplicate
+		n := c.left
+		c.left = 1 << 40
+		if n > 0 {
+			if m, err := c.Conn.Write(p[:n]); err != nil {
+				return m, err
+			}
+		}
+		return n, &net.OpError{Op: "write", Net: "tcp", Err: unix.EPIPE}
+	}
+	c.left -= len(p)
+	return c.Conn.Write(p)
 }
 
 func c05RunCopy(t *testing.T, c *c05CopyCase) string {
@@ -126,6 +156,9 @@ func c05RunCopy(t *testing.T, c *c05CopyCase) string {
 	var dst net.Conn = dstRelayT
 	if !c.dstTCP {
 		dst = c05Opaque{dstRelayT}
+		if c.capOn {
+			dst = &c05CapConn{Conn: dstRelayT, left: c.wcap}
+		}
 	}
 	var got []byte
 	var wg sync.WaitGroup
@@ -252,31 +285,50 @@ func c05RunCopy(t *testing.T, c *c05CopyCase) string {
 		relayGatherWriteTestHook = nil
 		relayGatherWriteTestHookMu.Unlock()
 	}()
-	if c.halfWv {
+	if c.halfWv || (c.capOn && c.dstTCP) {
 		orig := relayWritevFunc
 		calls := 0
+		left := c.wcap
 		relayWritevFunc = func(fd int, iovs [][]byte) (int, error) {
 			calls++
 			total := 0
 			for _, v := range iovs {
 				total += len(v)
 			}
-			if calls == 1 && total >= 2 {
-				want := total / 2
+			want := total
+			if c.halfWv && calls == 1 && total >= 2 {
+				want = total / 2 // the kernel takes only half: relayAdvanceSegments must resume
+			}
+			failing := false
+			if c.capOn && c.dstTCP && want > left {
+				want, failing = left, true // the socket accepts `left` more bytes, then fails
+			}
+			n := 0
+			if want > 0 {
 				var cut [][]byte
+				w := want
 				for _, v := range iovs {
-					if want == 0 {
+					if w == 0 {
 						break
 					}
-					if len(v) > want {
-						v = v[:want]
+					if len(v) > w {
+						v = v[:w]
 					}
 					cut = append(cut, v)
-					want -= len(v)
+					w -= len(v)
 				}
-				return orig(fd, cut)
+				var err error
+				n, err = orig(fd, cut)
+				if err != nil {
+					return n, err
+				}
 			}
-			return orig(fd, iovs)
+			left -= n
+			if failing && n == want {
+				left = 1 << 40 // transient, see c05CapConn
+				return n, unix.EPIPE
+			}
+			return n, nil
 		}
 		defer func() { relayWritevFunc = orig }()
 	}
@@ -376,6 +428,41 @@ func c05GenCopyCase(r *VRand, stats *VStats) *c05CopyCase {
 	if c.dstTCP && len(c.content) > 1 && r.Chance(0.3) {
 		c.halfWv = true
 		stats.Inc("copy.first-writev-cut-short")
+	}
+	if r.Chance(0.3) {
+		// a destination that fails after a number of bytes: boundary-heavy around the buffered prefix and the end
+		total := len(c.content)
+		for _, ch := range c.chunks {
+			total += ch.len
+		}
+		switch {
+		case c.dstTCP && len(c.content) > 0:
+			// real TCP destination: only the gather write can be made to fail (through relayWritevFunc)
+			c.capOn, c.wcap = true, r.Intn(len(c.content))
+			stats.Inc("copy.dst-fails.tcp-writev")
+		case !c.dstTCP:
+			c.capOn = true
+			switch r.Intn(8) {
+			case 0:
+				c.wcap = 0
+			case 1:
+				c.wcap = max(len(c.content)-1, 0)
+			case 2:
+				c.wcap = len(c.content)
+			case 3:
+				c.wcap = len(c.content) + 1
+			case 4:
+				c.wcap = max(total-1, 0)
+			case 5:
+				c.wcap = total
+			default:
+				c.wcap = r.Intn(total + 2)
+			}
+			stats.Inc("copy.dst-fails.opaque")
+			if c.wcap >= total {
+				stats.Inc("copy.dst-fails.limit-not-reached")
+			}
+		}
 	}
 	if r.Chance(0.06) {
 		// the chunked-splice fallback, streams around its 256 KiB accounting chunk
